@@ -1318,6 +1318,29 @@ def c14(ctx: Ctx) -> None:
     ctx.rule('C14-R2', 'every cache/table subscript uses the same, un-reassigned key variable', 4)
     ctx.rule('C14-R3', 'the wrapped function is called with exactly *args, **kwargs', 1)
     ctx.rule('C14-R4', 'the supplied mapping is selected by a None test and is the only store', 2)
+    ctx.rule('C14-R5', 'whenever a function is given, the decorator returns the caching wrapper built over the selected mapping', 1)
+    # every way out of the decorator (and of the factory it delegates to): the wrapper, the partial for the options form, or the
+    # hand-over to the factory - an early `return func` (an "already decorated" shortcut, say) drops the caller's mapping
+    for host in ([r.outer] if r.outer is r.impl else [r.outer, r.impl]):
+        gh = build(host, ctx.program)
+        for rn in [n for n in gh.nodes if n.kind == 'return']:
+            v = rn.ast.value
+            rv = resolve(gh, rn, v) if v is not None else None
+            names = {x.id for x in ast.walk(rv) if isinstance(x, ast.Name)} if rv is not None else set()
+            kind = None
+            if isinstance(rv, ast.Name) and rv.id == w.name and host is r.impl:
+                kind = 'the wrapper'
+            elif isinstance(rv, ast.Call) and gh.res.path(rv.func) == 'functools.partial' and rv.args and isinstance(rv.args[0], ast.Name) \
+                    and rv.args[0].id == r.outer.name:
+                kind = 'partial of the decorator (options form)'
+            elif isinstance(rv, ast.Call) and host is r.outer and r.outer is not r.impl and isinstance(rv.func, ast.Name) \
+                    and (rv.func.id == r.impl.name or (gh.res.path(rv.func) or '').split('.')[-1] == r.impl.name):
+                kind = 'hand-over to the factory'
+            elif isinstance(rv, ast.Call) and w.name in names and host is r.impl:
+                kind = 'the wrapper (wrapped once more by a call)'
+            ctx.check('C14-R5', f'{host.name}: return {norm(v)[:70] if v is not None else None}', gh.loc(rn), kind is not None,
+                      kind or '', 'the decorator can hand back something that is not the caching wrapper (the undecorated or an earlier-'
+                      'decorated function): the mapping given as cache= is not the store', construct=construct_key(host.qualname, 'returns not the wrapper', v))
     fn = w.node
     va = fn.args.vararg.arg if fn.args.vararg else None
     kw = fn.args.kwarg.arg if fn.args.kwarg else None
